@@ -33,6 +33,8 @@ UNMATCHED_RAT = [-1, 1]
 ENCODINGS = [("float+nan", float, [0, 1, 2, 3], np.nan),
              ("int10+(-1)", int, [10, 20, 30, 40], -1),
              ("str+''", str, ["a", "b", "c", "d"], ""),
+             # (a sentinel wider than every class name: the result dtype must still hold it)
+             ("str+'unlabeled'", str, ["a", "b", "c", "d"], "unlabeled"),
              ("object+None", object, ["a", "b", "c", "d"], None)]
 NORMS = [("none", None), ("true", "true"), ("pred", "pred"), ("all", "all")]
 
